@@ -233,6 +233,9 @@ def run_r1(ctx, rule):
     okall = True
     for ex in c.exits:
         def no_underflow(fa):
+            return no_underflow_fact(fa)
+
+        def _unused(fa):
             sub_of = lambda x, name: is_call(x, name) and x[3] and x[3][0] == fld("valid_len") and x[3][1] == ("l", 2)
             if fa[0] == "bool" and fa[2] is False and mentions(fa[1], lambda x: sub_of(x, "overflowing_sub")):
                 return True  # `let (v, overflow) = valid_len.overflowing_sub(n); if overflow { cold }`
@@ -273,8 +276,30 @@ def run_r2(ctx, rule):
         rule.check(bool(t.get("unsafe")), "%s/calls-advance_unchecked" % norm(f.id), "advance_unchecked is called inside an unsafe block (%s)" % short(f.id), f.loc(bb))
 
 
+def no_underflow_fact(fa):
+    """a fact under which valid_len - n did not underflow in advance(n)"""
+    sub_of = lambda x, name: is_call(x, name) and x[3] and x[3][0] == fld("valid_len") and x[3][1] == ("l", 2)
+    if fa[0] == "bool" and fa[2] is False and mentions(fa[1], lambda x: sub_of(x, "overflowing_sub")):
+        return True  # `let (v, overflow) = valid_len.overflowing_sub(n); if overflow { cold }`
+    if fa[0] == "eq" and fa[2] == 1 and fa[1][0] == "discr" and mentions(fa[1], lambda x: sub_of(x, "checked_sub")):
+        return True  # the Some edge of valid_len.checked_sub(n)
+    return guards.cmp_matches(fa, "Le", lambda x: x == ("l", 2), lambda x: x == fld("valid_len"))  # n <= valid_len
+
+
 def run_r3(ctx, rule):
     facts = ctx.facts
+    # advance(n) panics (documented) when n exceeds the buffered length: *no* trusted field may have been written by
+    # then -- a caught panic must leave window start and length as they were
+    fa_ = facts.fns[[i for i in facts.fns if norm(i) == DR + "advance"][0]]
+    nst = 0
+    for f2, bi, si, name in util.field_stores(facts, "flussab::deferred_reader::DeferredReader"):
+        if f2 is not fa_ or name not in ("pos_in_buf", "valid_len") or si is None:
+            continue
+        nst += 1
+        g = guards.holds(fa_, bi, no_underflow_fact)
+        rule.check(bool(g), "advance/store-%s-after-check" % name, "advance(n) writes %s only behind the test that n does not exceed the buffered length (a caught panic leaves the window untouched)" % name, fa_.loc(bi))
+    if nst < 2:
+        rule.bad("advance/stores", "anchor missing: advance no longer stores pos_in_buf and valid_len itself (%d stores)" % nst, kind="anchor-missing")
     WRAP = ("overflowing_sub", "overflowing_add", "wrapping_sub", "wrapping_add", "wrapping_mul")
     for adt, trusted in (("flussab::deferred_reader::DeferredReader", ("pos_in_buf", "valid_len")),):
         for f, bi, si, name in util.field_stores(facts, adt):
